@@ -98,6 +98,7 @@ def link_state_problems(live):
 
 def gen_list_word_op(rng, spec):
     """any list mutator with present / absent / duplicate / no-op arguments"""
+    spec = history.inside(spec)
     kind = rng.choice(["steps", "journeys", "patterns"])
     name = rng.choice(list(spec[kind]))
     attr = LIST_ATTRS[kind]
